@@ -12,6 +12,9 @@ fn min_vlog_file_id_enum() {
 	let mut cases = 0u64;
 	let mut nontrivial = std::collections::HashSet::new();
 	let mut failures: Vec<String> = Vec::new();
+	// every entry is written as a Set in one pass and as a Replace in the other (both kinds carry values that
+	// flush separates into the value log)
+	for pass_kind in [InternalKeyKind::Set, InternalKeyKind::Replace] {
 	for n in 1..=4usize {
 		for c in 0..4usize.pow(n as u32) {
 			let mut ids = Vec::new();
@@ -27,7 +30,9 @@ fn min_vlog_file_id_enum() {
 			{
 				let mut w = TableWriter::new(&mut buf, 7, Arc::clone(&opts), 0);
 				for (i, &id) in ids.iter().enumerate() {
-					let key = InternalKey::new(format!("key{i:02}").into_bytes(), (i + 1) as u64, InternalKeyKind::Set, 0);
+					// alternate the kinds inside a table in the Replace pass
+					let kind = if pass_kind == InternalKeyKind::Replace && i % 2 == 0 { InternalKeyKind::Replace } else { InternalKeyKind::Set };
+					let key = InternalKey::new(format!("key{i:02}").into_bytes(), (i + 1) as u64, kind, 0);
 					let val = if id == 0 {
 						ValueLocation::with_inline_value(vec![i as u8; 3]).encode()
 					} else {
@@ -56,6 +61,7 @@ fn min_vlog_file_id_enum() {
 				));
 			}
 		}
+	}
 	}
 	println!(
 		"REPLAY-RESULT {{\"driver\":\"sstable::table::min_vlog_file_id_enum\",\"cases\":{},\"distinct_nontrivial\":{},\"failures\":[{}]}}",
